@@ -90,9 +90,9 @@ Proof. vm_compute. auto. Qed.
       `\,`), other than the lone `**` (statement 6c).  For every such glob the parser applied to its text yields
       exactly the documented tokens — Alternates [tokens of b1; …; tokens of bn], each alternative read as a glob of
       its own — with the alternatives of each Alternates token in the parser's storage order, which is the
-      reverse of the order written (`pop_alternate` pops the stack): [parser_order].  A ',' outside braces is
-      not in this syntax as a plain character (plain_ok excludes it; `\,` is); statement 6a says the order is
-      immaterial. *)
+      reverse of the order written (`pop_alternate` pops the stack): [parser_order].  A ',' outside braces is an
+      ordinary character (AComma: Literal ','); between braces a literal comma is `\,`.  Statement 6a says the
+      order is immaterial. *)
 Theorem parse_documented_syntax_alt :
   forall (o : gopts) (ps : list apiece),
     backslash_escape o = true -> aglob_ok ps = true ->
@@ -147,20 +147,31 @@ Proof.
 Qed.
 Print Assumptions parse_documented_syntax_alt_lone_dstar_refuted.
 
-(* non-vacuity of 6, 6b: `**/x{a/**,\,,}*.[ch]/{**/m,n}` *)
+(* 6d. statement 6 extends statement 5: a glob of the alternate-free syntax, seen as a tree of the syntax with
+       alternates, has the same text, the same tokens and the same well-formedness verdict (so 5 is the
+       alternation-free instance of 6). *)
+Theorem alt_syntax_conservative :
+  forall ps : list gpiece,
+    render_aglob (map piece_inj ps) = render_glob ps /\
+    parser_order (aglob_tokens (map piece_inj ps)) = glob_tokens ps /\
+    aglob_ok (map piece_inj ps) = glob_ok ps.
+Proof. exact alt_syntax_conservative_proof. Qed.
+Print Assumptions alt_syntax_conservative.
+
+(* non-vacuity of 6, 6b: `**/x,{a/**,\,,}*.[ch]/{**/m,n}` *)
 Example ex_documented_syntax_alt :
   let o := mk_gopts false true true true in
   let g := [APDStar;
-            APComp [AIt (IPlain 120); AAlt [[PComp [IPlain 97]; PDStar]; [PComp [IEsc 44]]; []]; AIt IStar;
+            APComp [AIt (IPlain 120); AComma; AAlt [[PComp [IPlain 97]; PDStar]; [PComp [IEsc 44]]; []]; AIt IStar;
                     AIt (IPlain 46); AIt (IClass [(99, 99); (104, 104)]%N)];
             APComp [AAlt [[PDStar; PComp [IPlain 109]]; [PComp [IPlain 110]]]]] in
   aglob_ok g = true /\
-  render_aglob g = [42;42;47; 120; 123; 97;47;42;42; 44; 92;44; 44; 125; 42; 46; 91;99;104;93; 47;
+  render_aglob g = [42;42;47; 120; 44; 123; 97;47;42;42; 44; 92;44; 44; 125; 42; 46; 91;99;104;93; 47;
                     123; 42;42;47;109; 44; 110; 125]%N /\
-  aglob_tokens g = [TRecPrefix; TLit 120; TAlt [[TLit 97; TRecSuffix]; [TLit 44]; []]; TStar; TLit 46;
+  aglob_tokens g = [TRecPrefix; TLit 120; TLit 44; TAlt [[TLit 97; TRecSuffix]; [TLit 44]; []]; TStar; TLit 46;
                     TClass false [(99, 99); (104, 104)]%N; TLit 47; TAlt [[TRecPrefix; TLit 109]; [TLit 110]]] /\
   build o (render_aglob g) = Some (Ok (parser_order (aglob_tokens g))) /\
-  parser_order (aglob_tokens g) = [TRecPrefix; TLit 120; TAlt [[]; [TLit 44]; [TLit 97; TRecSuffix]]; TStar; TLit 46;
+  parser_order (aglob_tokens g) = [TRecPrefix; TLit 120; TLit 44; TAlt [[]; [TLit 44]; [TLit 97; TRecSuffix]]; TStar; TLit 46;
                     TClass false [(99, 99); (104, 104)]%N; TLit 47; TAlt [[TLit 110]; [TRecPrefix; TLit 109]]].
 Proof. vm_compute. repeat split; reflexivity. Qed.
 Example ex_alt_matches :
@@ -219,3 +230,8 @@ Check alt_glob_matches_some_alternative :
     (empty_alternates o = true \/ forallb (fun b => negb (match b with [] => true | _ => false end)) bs = true) ->
     exists ts, build o (render_aglob [APComp [AAlt bs]]) = Some (Ok ts) /\
                tmatch o ts p = existsb (fun b => tmatch o (glob_tokens b) p) bs.
+Check alt_syntax_conservative :
+  forall ps : list gpiece,
+    render_aglob (map piece_inj ps) = render_glob ps /\
+    parser_order (aglob_tokens (map piece_inj ps)) = glob_tokens ps /\
+    aglob_ok (map piece_inj ps) = glob_ok ps.
